@@ -7,3 +7,6 @@ open Chess.Props.C05
 #print axioms parse_display
 #print axioms display_parse
 #print axioms standard_is_parsed
+#print axioms build_refines
+#print axioms build_eq_parse
+#print axioms build_fields
